@@ -44,6 +44,15 @@ CLAIMED = {
     'C20': dict(technique='bounded symbolic execution of the MIR of main on generated declare/redeclare/assign/read/destructure programs, decided by z3; lock-step reference incl. error position and cited earlier position; native replay',
                 text='Same program space as C04 plus 4x5 redeclaration kind pairs and 12 non-bindable target kinds x 10 binding positions (exhaustive): undefined names are reported at the name, redeclarations cite the earlier position, `_` never binds, non-bindable targets are reported errors.',
                 design='§4 C04/C20'),
+    'C03': dict(technique='bounded symbolic execution of the MIR of main over symbolic source bytes (evaluation stubbed at eval_prog), panic-freedom / diagnostic form / line bound decided by z3 per path; reference front end on path witnesses; native replay',
+                text='All valid-UTF-8 inputs up to 2 bytes, all 3-byte strings over a 31-character punctuation alphabet, and sampled truncations of the repository scripts followed by one symbolic byte go through the real scanner, lexer, LR driver model and generated actions: no path panics or hangs, every rejection is one `<path>:<line>:<col>:` diagnostic with line <= lines+1 and empty stdout, and acceptance equals the reference front end on every path witness.',
+                design='§4 C03'),
+    'C15': dict(technique='bounded symbolic execution of the MIR of main over source text with symbolic bytes inside string literals; byte-level specification as z3 terms decided per path; native replay',
+                text='Literal bodies, escapes, hex digits, bare `$`, and interpolated strings with symbolic UTF-8 text before / between / after two slots drawn from a pool of slot expressions: output equals the byte-level specification (concatenation of pieces and slot values, ->len() = byte count), lexical errors are located at the offending character, nothing panics -- for all byte values on each path.',
+                design='§4 C15'),
+    'C18': dict(technique='bounded symbolic execution of the MIR of main over symbolic source bytes: scanner-position invariant at every Scanner::loc() call and shift lemma for layout prefixes as z3 formulas decided per path; reference front end on witnesses; native replay',
+                text='(a) For every input up to the byte bound, each (line, col) the scanner hands out equals the true position of the current character (formula over the symbolic bytes: LF, CR, tab, multi-byte characters); (b) syntax errors are located at the offending character / token (reference front end per path witness); (c) a failing tail preceded by symbolic layout bytes, a comment with arbitrary text, a multi-line string or a continuation break reports every position (diagnostic and stack trace) moved by exactly the displacement of the prefix.',
+                design='§4 C18'),
 }
 NA_REASON = 'check not built yet in this round (DESIGN.md §7 gates); no claim is made'
 checks = []
